@@ -14,13 +14,14 @@ def E(name, expr, props=None):
 
 class Loop:
     def __init__(self, header, invariants=(), counter=None, variant=None, ghost_init=None,
-                 ghost_modified=(), assumed=(), forget=True):
+                 ghost_modified=(), assumed=(), forget=True, uses=None):
         self.header = header
         self.invariants = list(invariants)
         self.counter = counter
         self.variant = variant
         self.ghost_init = dict(ghost_init or {})
         self.ghost_modified = list(ghost_modified)
+        self.uses = dict(uses or {})  # invariant index -> indices of the invariants its preservation proof may use
         self.forget = forget  # drop path facts about pre-loop values of modified variables
         self.assumed = list(assumed)  # assumed at the loop head, NOT proved: listed in evidence
 
@@ -31,7 +32,8 @@ class Contract:
                  may_raise=False, consts=None, callee_alias=None, spec_funcs=None,
                  check_bounds=True, div_side=True, assumed=False, source="", shapes=None,
                  notes="", abstract_fp=True, ghost_decl=None, ghost_after=None, gen=None, spec_src=None,
-                 axioms=(), assume_asserts=None, neg_inf_sentinel=False):
+                 axioms=(), assume_asserts=None, neg_inf_sentinel=False, nan_sentinel=False,
+                 variants=None, name_stores=False):
         self.name = name  # 'util._constrain_ages'
         self.mode = mode
         self.requires = [c.expr if isinstance(c, Clause) else c for c in requires]
@@ -56,6 +58,9 @@ class Contract:
         self.shapes = dict(shapes or {})  # param -> list of ints/None/param-size names
         self.params = None  # filled from the AST
         self.notes = notes
+        self.nan_sentinel = nan_sentinel
+        self.name_stores = name_stores  # introduce a fresh constant for every compound value stored into an array
+        self.variants = list(variants or [])  # [{param: python constant}]: the function is verified once per variant
         self.neg_inf_sentinel = neg_inf_sentinel  # real mode: -inf is the constant NINF, below every other value
         self.axioms = list(axioms)  # definitional axioms of spec functions (assumed at entry)
         self.assume_asserts = dict(assume_asserts or {})  # source text of a real-code assert -> reason it is NOT proved
